@@ -31,6 +31,23 @@ def run(ctx):
                 if fa != fb: diffs.append('final files differ: %s' % sorted(n for n in set(fa) | set(fb) if fa.get(n) != fb.get(n))[:5])
             for name, bad in (('order (dyndep)', ec.oracle_c04(a, sa, ba)), ('order (inlined)', ec.oracle_c04(b, sb, bb))):
                 if bad: diffs.append(name + ': ' + bad[0])
+            if diffs and 'dyndep-restat-known-late' in known and ba.exit == 0 and bb.exit == 0:
+                # listed finding: restat=1 comes from a dyndep file that is itself rebuilt in this run, so the bound statement is
+                # judged (and stays) dirty before the file is loaded; the inlined manifest knows restat at scan time and skips it
+                g_ = sa.g; prod_ = g_.producer()
+                extra = set(ba.started) - set(bb.started)
+                def late_restat(o0):
+                    e = prod_.get(o0)
+                    if e is None or not e.dyndep or e.dyndep not in g_.dd_info or e.out0 not in g_.dd_info[e.dyndep]: return False
+                    ddp = prod_.get(e.dyndep)
+                    return g_.dd_info[e.dyndep][e.out0][2] and ddp is not None and ddp.out0 in ba.started
+                roots = {o for o in extra if late_restat(o)}
+                below = set()
+                for o in roots: below |= {x.out0 for x in g_.edges if x.idx in g_.dependents_of(prod_[o])}
+                fa_ = {n: c for n, (m, c) in ba.files.items() if not n.endswith('.d') and n != 'build.ninja'}
+                fb_ = {n: c for n, (m, c) in bb.files.items() if not n.endswith('.d') and n != 'build.ninja'}
+                if roots and extra <= (roots | below) and not (set(bb.started) - set(ba.started)) and fa_ == fb_:
+                    ctx.known_finding('id=dyndep-restat-known-late %s build %d: %s' % (a.sid, k, diffs[0][:200])); diffs = []
             if diffs:
                 ctx.violation('dyndep-vs-inlined', a.text() + '# ---- inlined variant\n' + b.text(), '%s build %d: %s' % (a.sid, k, '; '.join(diffs[:3])))
                 break
